@@ -335,7 +335,7 @@ type Oracles struct {
 	// ExemptObs filters observation lines that are exempt (C03 body extent without Content-Length).
 	ExemptObs func(line string) bool
 	// ExemptOffset: the returned offset is exempt too (same case).
-	ExemptCase func(o any, flags uint) bool
+	ExemptCase func(o any, flags uint, text []byte) bool
 }
 
 type Explorer[T any] struct {
@@ -843,7 +843,21 @@ func (w *worker[T]) visit(depth int) bool {
 			var fobs string
 			w.ffKey = d.key(fo, buf, w.ffKey[:0])
 			fkey := w.ffKey
-			for _, a := range w.stack {
+			// also from the states suspended on THIS prefix: a last call that brings no new byte, only the flag
+			var own *nodeRec[T]
+			if suspended(nd.fe) || len(nd.susp) > 0 {
+				own = &nodeRec[T]{susp: nd.susp}
+				if suspended(nd.fe) {
+					own.susp = append(append([]*suspState[T](nil), nd.susp...), &suspState[T]{o: nd.fresh, next: nd.fn, key: nd.fkey, cut: blen})
+				}
+			}
+			for ai := 0; ai <= len(w.stack); ai++ {
+				var a *nodeRec[T]
+				if ai < len(w.stack) {
+					a = w.stack[ai]
+				} else if a = own; a == nil {
+					break
+				}
 				for _, s := range a.susp {
 					d.copyInto(w.scratch, s.o, &w.store)
 					n2, e2, pm2 := d.safeStep(w.scratch, buf, s.next, &fc)
@@ -920,7 +934,7 @@ func (w *worker[T]) cmpExt(po *T, pn int, pe sipsp.ErrorHdr, pkey []byte, co *T,
 	base := cfg.Offs
 	exempt := false
 	if e.Or.ExemptCase != nil {
-		exempt = successLike(pe) && e.Or.ExemptCase(po, cfg.Flags)
+		exempt = successLike(pe) && e.Or.ExemptCase(po, cfg.Flags, buf[base:plen])
 	}
 	if pe != ce || (!exempt && pn != cn) {
 		c := mkCase("extension", d.Name, cfg, buf[base:clen], []int{plen - base, clen - base})
@@ -1090,7 +1104,7 @@ func replayExtension[T any](prop string, d *Driver[T], c *Case, or Oracles) []*V
 		return nil
 	}
 	pobs := d.obs(po, buf)
-	exempt := or.ExemptCase != nil && successLike(pe) && or.ExemptCase(po, cfg.Flags)
+	exempt := or.ExemptCase != nil && successLike(pe) && or.ExemptCase(po, cfg.Flags, p[base:])
 	if pe != we || (!exempt && pn != wn) {
 		out = append(out, &Violation{Property: prop, Site: d.Name, Rule: "verdict-stable-under-extension", Class: errName(pe) + "->" + errName(we),
 			Detail: fmt.Sprintf("%s vs %s", verdictStr(pn-base, pe), verdictStr(wn-base, we)), Case: c})
